@@ -26,6 +26,7 @@ type c17case struct {
 	Kind    string `json:"kind,omitempty"`
 	M1, M2  string
 	Seed    int64 `json:"seed,omitempty"`
+	Reopen  bool  `json:"reopen,omitempty"` // after Close another file is opened (and stays open) before the closed handle is used again
 	Warm    bool  `json:"warm,omitempty"` // M1 and M2 are also called once BEFORE Close (something remembered from then must not answer afterwards)
 }
 
@@ -39,6 +40,7 @@ func c17cases(env *core.Env) []c17case {
 			for _, m1 := range c17methods {
 				if !strings.Contains(m1, "/") {
 					cs = append(cs, c17case{Part: "closed", Subject: s, Kind: k, M1: m1, M2: "H.Stat", Warm: true})
+					cs = append(cs, c17case{Part: "closed", Subject: s, Kind: k, M1: m1, M2: "H.Close", Reopen: true})
 				}
 				if strings.Contains(m1, "/") {
 					cs = append(cs, c17case{Part: "closed", Subject: s, Kind: k, M1: m1, M2: "H.Stat"})
@@ -71,7 +73,7 @@ func init() {
 		ID:    "C17",
 		Level: "exploration",
 		Rule: "(closed) for every FS kind (mem, keyvalue over a plain Store, mount, Sub, cache full/minimal store, tar default/minimal destination, os.FS) and handle kind (read-only, write-only, read-write, append, directory) the handle is closed and every ordered pair of the 11 methods is called on it: each call must return an error, never panic, and match ErrClosed wherever the same call on a closed *os.File does; " +
-			"(closed, warm) each method is also called once before Close, so that nothing remembered from then answers afterwards; (siblings) random scripts on 2..3 handles of one file record every other handle's offset and usability around each call; (dirsiblings) 2..3 handles on one directory are paged, stat'ed and closed in random order on every FS kind and compared with os directory handles (page sizes as counts, complete listings as sets); (lifecycle) random histories open 1..3 handles, Remove/Rename/re-create the path and write through the old handles: the old name must not exist again unless the history re-created it. Non-trivial: all cases (each makes >=2 calls on a closed or unlinked handle); distinct by case parameters",
+			"(closed, warm) each method is also called once before Close, so that nothing remembered from then answers afterwards; (closed, reopen) another file is opened after the Close and must survive calls (incl. a second Close) on the closed handle, which must stay closed; (siblings) random scripts on 2..3 handles of one file record every other handle's offset and usability around each call; (dirsiblings) 2..3 handles on one directory are paged, stat'ed and closed in random order on every FS kind and compared with os directory handles (page sizes as counts, complete listings as sets); (lifecycle) random histories open 1..3 handles, Remove/Rename/re-create the path and write through the old handles: the old name must not exist again unless the history re-created it. Non-trivial: all cases (each makes >=2 calls on a closed or unlinked handle); distinct by case parameters",
 		Assumptions: []string{"reference for ErrClosed expectations and for lifecycle outcomes is *os.File / the os package on Linux"},
 		NumCases:    func(env *core.Env) int { return len(c17cases(env)) },
 		Batch:       300,
@@ -197,6 +199,33 @@ func c17closed(env *core.Env, cs c17case, res *core.CaseResult) {
 		res.Violate(fmt.Sprintf("C17|%s|%s|first-close|got=%s,want=ok", cs.Subject, cs.Kind, sc.Outcome()), "closing an open handle failed: "+sc.String(), cs)
 		return
 	}
+	if cs.Reopen {
+		// another handle comes to life after the Close (objects of closed handles must not be handed out again while the
+		// caller can still reach them); it has to survive whatever is done with the closed one
+		other := fsx.Step{K: "Open", P: "d/x", Flag: os.O_RDONLY, Slot: 1}
+		if cs.Kind == "dir" {
+			other.P = "f"
+		}
+		if o := fsx.Exec(sub.fs, other, &sh, nil); !o.OK() {
+			res.Violate(fmt.Sprintf("C17|%s|%s|open-after-close|got=fail,want=ok", cs.Subject, cs.Kind), "cannot open another file after closing a handle: "+o.String(), cs)
+			return
+		}
+		_ = fsx.Exec(ref, other, &rh, nil)
+		defer func() {
+			if len(res.Violations) > 0 {
+				return
+			}
+			for _, st := range []fsx.Step{{K: "H.Stat", Slot: 1}, {K: "H.Read", Slot: 1, N: 4}, {K: "H.Close", Slot: 1}} {
+				sr, rr := fsx.Exec(sub.fs, st, &sh, nil), fsx.Exec(ref, st, &rh, nil)
+				eofish := func(e string) bool { return e == "ok" || e == "EOF" }
+				if sr.Panic != "" || eofish(sr.Err) != eofish(rr.Err) || (st.K == "H.Read" && sr.Data != rr.Data) {
+					res.Violate(fmt.Sprintf("C17|%s|%s|%s,other-handle-after-closed-one-was-used|got=%s,want=%s", cs.Subject, cs.Kind, st.K, sr.Outcome(), rr.Outcome()),
+						fmt.Sprintf("[%s] a handle opened after another one was closed: %s returned %s after %s and %s were called on the CLOSED handle; os: %s", cs.Subject, st, sr, cs.M1, cs.M2, rr), cs)
+					return
+				}
+			}
+		}()
+	}
 	for i, m := range []string{cs.M1, cs.M2} {
 		st := c17step(m)
 		if i := strings.Index(m, "/"); i >= 0 {
@@ -214,6 +243,9 @@ func c17closed(env *core.Env, cs c17case, res *core.CaseResult) {
 		sigBase := fmt.Sprintf("C17|%s|%s|%s|", cs.Subject, cs.Kind, m)
 		if cs.Warm {
 			sigBase = fmt.Sprintf("C17|%s|%s|%s,called-before-close|", cs.Subject, cs.Kind, m)
+		}
+		if cs.Reopen {
+			sigBase = fmt.Sprintf("C17|%s|%s|%s,another-file-opened-since|", cs.Subject, cs.Kind, m)
 		}
 		switch {
 		case sr.Panic != "":
